@@ -1093,7 +1093,7 @@ pub fn run(ctx: &Ctx) -> Report {
         vec![s.clone(), s]
     } else {
         let mut rng = ctx.rng("c07");
-        let n = ctx.pick(480, 4800) / ctx.nshards;
+        let n = ctx.pick(480, 9600) / ctx.nshards;
         let mut v: Vec<Scen> = (0..GRID).filter(|i| i % ctx.nshards == ctx.shard).map(|i| scen_from_seed((0xD1u64 << 56) | i as u64)).collect();
         v.extend((0..n).map(|_| scen_from_seed(rng.u64() >> 8)));
         v
